@@ -347,6 +347,19 @@ theorem buildInt_lookup {f : Nat → Option T} {g : Nat → Option Val} {k id : 
       · exact ih right rest hrest
     · cases h
 
+theorem buildInt_not_leaf {f : Nat → Option T} {id : Nat} {cells : List IntCell} {right i : Nat} {c : List (Nat × Val)}
+    (h : buildInt f id cells right = some (.leaf i c)) : False := by
+  cases cells with
+  | nil =>
+    simp only [buildInt, Option.map_eq_some_iff] at h
+    obtain ⟨r, _, hr⟩ := h
+    cases hr
+  | cons x xs =>
+    simp only [buildInt] at h
+    split at h
+    · cases h
+    · cases h
+
 theorem extract_lookup (d : Dump) (k : Nat) : ∀ (fuel id : Nat) (t : T), extract d fuel id = some t →
     lookupG d fuel id k = t.lookup k := by
   intro fuel
@@ -505,6 +518,105 @@ theorem scan_links (d : Dump) : ∀ (l : List (Nat × List (Nat × Val))) (p fue
       cases rest with
       | nil => simp
       | cons a b => simp
+
+/-! ### backward scan -/
+
+theorem getLast?_append_ne {α : Type} (a b : List α) (h : b ≠ []) : (a ++ b).getLast? = b.getLast? := by
+  rw [List.getLast?_append]
+  cases hb : b.getLast? with
+  | none => exact absurd (List.getLast?_eq_none_iff.mp hb) h
+  | some x => rfl
+
+theorem buildInt_rightmost {f : Nat → Option T} {g : Nat → Option Nat} {id : Nat}
+    (hf : ∀ c t, f c = some t → g c = t.leafList.getLast?.map (·.1)) :
+    ∀ (cells : List IntCell) (right : Nat) (t : T), buildInt f id cells right = some t →
+      g right = t.leafList.getLast?.map (·.1) := by
+  intro cells
+  induction cells with
+  | nil =>
+    intro right t h
+    simp only [buildInt, Option.map_eq_some_iff] at h
+    obtain ⟨r, hr, rfl⟩ := h
+    simpa [T.leafList] using hf right r hr
+  | cons c cs ih =>
+    intro right t h
+    simp only [buildInt] at h
+    split at h
+    · next ch rest hch hrest =>
+      cases h
+      rw [ih right rest hrest]
+      simp only [T.leafList]
+      rw [getLast?_append_ne _ _ (leafList_ne_nil rest)]
+    · cases h
+
+theorem extract_rightmost (d : Dump) : ∀ (fuel id : Nat) (t : T), extract d fuel id = some t →
+    rightmost d fuel id = t.leafList.getLast?.map (·.1) := by
+  intro fuel
+  induction fuel with
+  | zero => intro id t h; simp [extract] at h
+  | succ fuel ih =>
+    intro id t h
+    simp only [extract] at h
+    simp only [rightmost]
+    split at h
+    · cases h
+    · next prev next cells hp =>
+      cases h
+      simp [T.leafList]
+    · next prev next right cells hp =>
+      exact buildInt_rightmost (g := rightmost d fuel) (fun c t hc => ih c t hc) cells right t h
+
+theorem scanBackFrom_zero (d : Dump) (fuel : Nat) : scanBackFrom d fuel 0 = some [] := by
+  cases fuel <;> simp [scanBackFrom]
+
+/-- Walking `prev` from the last leaf of a correctly linked list of non-empty leaves reads them backwards, and then
+    goes on from the page before the first one. -/
+theorem scanBack_links (d : Dump) : ∀ (l : List (Nat × List (Nat × Val))) (p k : Nat),
+    LeavesMatch d l → linksOk d p (l.map (·.1)) = true → (∀ e ∈ l, e.1 ≠ 0) → (∀ e ∈ l, e.2 ≠ []) →
+    scanBackFrom d (l.length + k) ((l.getLast?.map (·.1)).getD p) =
+      (scanBackFrom d k p).map fun r => (concatCells l).reverse ++ r := by
+  intro l
+  induction l with
+  | nil => intro p k _ _ _ _; simp [concatCells]
+  | cons e rest ih =>
+    intro p k hm hl hnz hne
+    obtain ⟨id, cells⟩ := e
+    obtain ⟨pr, nx, pc, hpage, hcells⟩ := hm (id, cells) (List.mem_cons_self ..)
+    have hid : id ≠ 0 := hnz (id, cells) (List.mem_cons_self ..)
+    have hcne : cells ≠ [] := hne (id, cells) (List.mem_cons_self ..)
+    simp only [List.map_cons, linksOk, hpage, Bool.and_eq_true, beq_iff_eq] at hl
+    obtain ⟨⟨hpr, _⟩, hrest⟩ := hl
+    simp only at hcells
+    have hpcne : pc.isEmpty = false := by
+      cases pc with
+      | nil =>
+        simp only [leafEntries, List.map_nil] at hcells
+        exact absurd hcells.symm hcne
+      | cons a b => rfl
+    -- this leaf, entered with fuel k + 1
+    have hthis : scanBackFrom d (k + 1) id = (scanBackFrom d k p).map fun r => cells.reverse ++ r := by
+      simp only [scanBackFrom, if_neg hid, hpage, hpcne, hcells, hpr]
+      rfl
+    cases rest with
+    | nil =>
+      simp only [List.getLast?_singleton, Option.map_some, Option.getD_some, List.length_cons, List.length_nil,
+        concatCells, List.append_nil]
+      rw [show 0 + 1 + k = k + 1 by omega]
+      exact hthis
+    | cons e2 rest2 =>
+      have hih := ih id (k + 1) (fun q hq => hm q (List.mem_cons_of_mem _ hq)) hrest
+        (fun q hq => hnz q (List.mem_cons_of_mem _ hq)) (fun q hq => hne q (List.mem_cons_of_mem _ hq))
+      have hlast : ((id, cells) :: e2 :: rest2).getLast? = (e2 :: rest2).getLast? := by simp [List.getLast?_cons_cons]
+      have hlast2 : ((e2 :: rest2).getLast?.map (·.1)).getD p = ((e2 :: rest2).getLast?.map (·.1)).getD id := by
+        cases hgl : (e2 :: rest2).getLast? with
+        | none => simp at hgl
+        | some x => simp
+      rw [hlast, hlast2]
+      rw [show ((id, cells) :: e2 :: rest2).length + k = (e2 :: rest2).length + (k + 1) by simp; omega]
+      rw [hih, hthis]
+      cases scanBackFrom d k p with
+      | none => rfl
+      | some r => simp [concatCells, List.reverse_append, List.append_assoc]
 
 /-! ### uniform depth -/
 
